@@ -262,11 +262,23 @@ class Kernel:
         return res
 
 
-def make_inputs(ins, vals, shapes):
-    """Fresh input tensors A, B, ... from dense nests."""
+def make_inputs(ins, vals, shapes, declared=True):
+    """Fresh input tensors A, B, ... from dense nests.  declared=False: built from a fiber tree without a shape
+    argument (the ranks only hold the extents estimated from their fibers)."""
     ts = []
     for i, (r, val) in enumerate(zip(ins, vals)):
-        ts.append(Tensor.fromUncompressed(list(r), val, shape=[shapes[v] for v in r], name=NAMES[i]))
+        if declared:
+            ts.append(Tensor.fromUncompressed(list(r), val, shape=[shapes[v] for v in r], name=NAMES[i]))
+        else:
+            def tree(x):
+                # plain coordinate / payload lists, no shape anywhere; all-zero sub-nests are left out
+                if not isinstance(x[0], list):
+                    cs = [c for c, v in enumerate(x) if v != 0]
+                    return Fiber(cs, [x[c] for c in cs])
+                subs = [(c, tree(y)) for c, y in enumerate(x)]
+                subs = [(c, f) for c, f in subs if len(f.coords)]
+                return Fiber([c for c, _ in subs], [f for _, f in subs])
+            ts.append(Tensor.fromFiber(list(r), tree(val), name=NAMES[i]))
     return ts
 
 
